@@ -164,3 +164,16 @@ where
         }
     }
 }
+
+#[cfg(pearl_verif)]
+impl<K> Observer<K>
+where
+    for<'a> K: Key<'a> + 'static,
+{
+    pub(crate) fn verif_worker_alive(&self) -> bool {
+        match &self.state {
+            ObserverState::Running(_, handle) => !handle.is_finished(),
+            _ => false,
+        }
+    }
+}
